@@ -264,7 +264,7 @@ func TestVerifC14(t *testing.T) {
 	w2.net.close()
 
 	states := map[string]bool{}
-	var transitions, effective int64
+	var transitions, effective, recvErrorsHandedToPeers int64
 	classes := map[string]int64{}
 	rebuilds := 0
 
@@ -274,6 +274,15 @@ func TestVerifC14(t *testing.T) {
 		base := w.b.snapshot(vSnapOpts{})
 		baseKey := vJSON(base)
 		states[baseKey] = true
+		peerBase := map[string]string{}
+		snapPeers := func() {
+			for _, n := range w.net.nodes {
+				if n != w.b {
+					peerBase[n.spec.Name] = vJSON(n.snapshot(vSnapOpts{}))
+				}
+			}
+		}
+		snapPeers()
 		ms := w.mutants(ai, c.Thorough())
 		for _, mu := range ms {
 			if c.OutOfTime() {
@@ -296,6 +305,22 @@ func TestVerifC14(t *testing.T) {
 				if len(o.Data) != header.Len || oh.Parse(o.Data) != nil || oh.Type != header.RecvError {
 					effect += "+udp-output(" + vDescribe(o.Data) + ")"
 					break
+				}
+				// a recv_error reply is only harmless if it carries no tunnel state: handed to the node that owns the address it
+				// was sent to (the genuine peer, when the forgery used its source address) it must not change anything there
+				if peer, ok := w.net.byUDP[o.To.Addr()]; ok && peer != w.b && peer.udp == o.To {
+					pb, had := peerBase[peer.spec.Name]
+					if !had {
+						c.Broken("no baseline for node %s", peer.spec.Name)
+					}
+					peer.deliver(o.From, o.Data)
+					recvErrorsHandedToPeers++
+					peer.conn.take()
+					peer.tun.take()
+					if pa := vJSON(peer.snapshot(vSnapOpts{})); pa != pb {
+						effect += "+recv_error-reply-changes-peer(" + peer.spec.Name + ")"
+						break
+					}
 				}
 			}
 			if afterKey != baseKey {
@@ -339,6 +364,7 @@ func TestVerifC14(t *testing.T) {
 				w.clearTrafficFlags()
 				base = w.b.snapshot(vSnapOpts{})
 				baseKey = vJSON(base)
+				snapPeers()
 			}
 		}
 		// the authentic packet itself must still be accepted and have its effect
@@ -369,8 +395,9 @@ func TestVerifC14(t *testing.T) {
 	c.Set("transitions", transitions)
 	c.Set("traces_validated_against_impl", transitions)
 	c.Set("authentic_packets", effective)
+	c.Set("recv_error_replies_handed_to_the_peer_they_were_addressed_to", recvErrorsHandedToPeers)
 	c.Set("mutant_classes", classes)
 	c.Set("explanation", "states = distinct victim snapshots (one baseline per authentic packet + the state after each authentic delivery); transitions = datagrams delivered to the real readOutsidePackets; every mutant must leave the baseline snapshot, tun and UDP output (recv_error replies excepted) unchanged")
 	c.Assume("forged = the enumerated mutants of captured authentic packets; AEAD unforgeability is assumed for everything else")
-	c.Assume("an unencrypted recv_error reply to an unknown index is not an 'effect' (it carries no tunnel state)")
+	c.Assume("an unencrypted recv_error reply is not an 'effect' by itself; it is handed to the node owning the address it was sent to and must leave that node's snapshot unchanged (a reply naming a live index would close the genuine peer's tunnel)")
 }
